@@ -32,17 +32,18 @@ type brec struct {
 }
 
 type op struct {
-	Kind   string  `json:"kind"` // get exists put delete batch batchfunc iter remove close rawput rawremoveprefix rawbatchremove dump
-	H      int     `json:"h,omitempty"`
-	K      string  `json:"k,omitempty"` // hex user key / raw key / prefix
-	V      string  `json:"v,omitempty"`
-	B      []brec  `json:"b,omitempty"`
-	HasR   bool    `json:"has_r,omitempty"` // a non-nil *util.Range is passed
-	Start  *string `json:"start,omitempty"` // nil = nil slice; "" = empty non-nil
-	Limit  *string `json:"limit,omitempty"`
-	Asc    bool    `json:"asc,omitempty"`
-	Stop   int     `json:"stop,omitempty"` // callback returns keep=false at its Stop-th call (0 = never)
-	N      int     `json:"n,omitempty"`    // BatchRemove limit / BatchFunc batch size
+	Kind  string  `json:"kind"` // get exists put delete batch batchfunc iter remove close rawput rawremoveprefix rawbatchremove dump wopen wadd wdone
+	H     int     `json:"h,omitempty"`
+	K     string  `json:"k,omitempty"` // hex user key / raw key / prefix
+	V     string  `json:"v,omitempty"`
+	B     []brec  `json:"b,omitempty"`
+	HasR  bool    `json:"has_r,omitempty"` // a non-nil *util.Range is passed
+	Start *string `json:"start,omitempty"` // nil = nil slice; "" = empty non-nil
+	Limit *string `json:"limit,omitempty"`
+	Asc   bool    `json:"asc,omitempty"`
+	Stop  int     `json:"stop,omitempty"` // callback returns keep=false at its Stop-th call (0 = never)
+	N     int     `json:"n,omitempty"`    // BatchRemove limit / BatchFunc batch size
+	W     int     `json:"w,omitempty"`    // writer index (wadd, wdone): the W-th wopen of the history
 }
 
 type replay struct {
@@ -127,6 +128,16 @@ func (o op) coq() string {
 		return fmt.Sprintf("(ORawBatchRemove %s %s)", r, vh.Z(int64(o.N)))
 	case "dump":
 		return "ODump"
+	case "wopen":
+		return fmt.Sprintf("(OWOpen %d %d)", o.H, o.N)
+	case "wadd":
+		r := o.B[0]
+		if r.Put {
+			return fmt.Sprintf("(OWAdd %d (BPut %s %s))", o.W, ck(unhex(r.K)), cv(unhex(r.V)))
+		}
+		return fmt.Sprintf("(OWAdd %d (BDel %s))", o.W, ck(unhex(r.K)))
+	case "wdone":
+		return fmt.Sprintf("(OWDone %d)", o.W)
 	}
 	panic("unknown op " + o.Kind)
 }
@@ -183,7 +194,21 @@ func (o out) String() string {
 
 // ------------------------------------------------------------------ running the real code
 
+// a writer obtained from PrefixStorage.BatchFunc, with a mirror of what a prefix-respecting writer flushes
+type writerT struct {
+	h       int
+	n       int
+	add     func(func(leveldbstorage.LeveldbBatch), func(func() error) error) error
+	done    func(func(func() error) error) error
+	dead    bool   // made on a closed handle, or done
+	pending []brec // mirror
+	// set by exec for the oracle: state of the mirror at the last operation
+	wasDead   bool
+	lastFlush []brec
+}
+
 type world struct {
+	ws       []*writerT
 	st       *leveldbstorage.Storage
 	hs       []*leveldbstorage.PrefixStorage
 	prefixes [][]byte // as given at creation
@@ -327,6 +352,35 @@ func (w *world) exec(o op) out {
 		return out{kind: "num", n: n}
 	case "dump":
 		return out{kind: "kvs", kvs: w.dump()}
+	case "wopen":
+		add, done, _ := w.hs[o.H].BatchFunc(context.Background(), uint64(o.N), nil)
+		w.ws = append(w.ws, &writerT{h: o.H, n: o.N, add: add, done: done, dead: w.closed[o.H]})
+		return out{kind: "ok"}
+	case "wadd":
+		wr := w.ws[o.W]
+		wr.wasDead, wr.lastFlush = wr.dead, nil
+		if !wr.dead {
+			wr.pending = append(wr.pending, o.B[0])
+			if len(wr.pending) >= wr.n {
+				wr.lastFlush, wr.pending = wr.pending, nil
+			}
+		}
+		r := o.B[0]
+		return errOut(wr.add(func(b leveldbstorage.LeveldbBatch) {
+			if r.Put {
+				b.Put(unhex(r.K), unhex(r.V))
+			} else {
+				b.Delete(unhex(r.K))
+			}
+		}, func(f func() error) error { return f() }))
+	case "wdone":
+		wr := w.ws[o.W]
+		wr.wasDead, wr.lastFlush = wr.dead, nil
+		if !wr.dead {
+			wr.lastFlush, wr.pending = wr.pending, nil
+			wr.dead = true
+		}
+		return errOut(wr.done(func(f func() error) error { return f() }))
 	}
 	panic("exec " + o.Kind)
 }
@@ -395,9 +449,13 @@ func oracle(w *world, o op, got out, before, after []kv) (string, string) {
 		return "dump-unsorted", "raw dump not ascending"
 	}
 	through := -1
+	viaWriter := false
 	switch o.Kind {
-	case "get", "exists", "put", "delete", "batch", "batchfunc", "iter", "remove", "close":
+	case "get", "exists", "put", "delete", "batch", "batchfunc", "iter", "remove", "close", "wopen":
 		through = o.H
+	case "wadd", "wdone":
+		through = w.ws[o.W].h
+		viaWriter = true
 	}
 	var p []byte
 	if through >= 0 {
@@ -417,7 +475,7 @@ func oracle(w *world, o op, got out, before, after []kv) (string, string) {
 				}
 			}
 		}
-		wasClosed := w.closed[through] && o.Kind != "close"
+		wasClosed := w.closed[through] && o.Kind != "close" && o.Kind != "wopen" && !viaWriter
 		if o.Kind == "close" {
 			// closed flag is set by exec; closing never changes content
 			if !sameMap(bm, am) {
@@ -518,6 +576,33 @@ func oracle(w *world, o op, got out, before, after []kv) (string, string) {
 		for k := range bm {
 			if bytes.HasPrefix([]byte(k), p) {
 				delete(want, k)
+			}
+		}
+	case "wopen":
+		if got.kind != "ok" {
+			return "write-failed", "BatchFunc failed"
+		}
+	case "wadd", "wdone":
+		// a writer made before Close may keep writing or may refuse: what it writes must be exactly its own
+		// records under the prefix it was made with
+		wr := w.ws[o.W]
+		if wr.wasDead {
+			if got.kind != "err" {
+				return "closed-handle-acts", fmt.Sprintf("%s through a writer that was made on a closed prefix storage / already done did not fail", o.Kind)
+			}
+			break
+		}
+		if got.kind == "err" && w.closed[wr.h] && sameMap(bm, am) {
+			return "", "" // refused after Close: fine
+		}
+		if got.kind != "ok" {
+			return "write-failed", o.Kind + " failed"
+		}
+		for _, r := range wr.lastFlush {
+			if r.Put {
+				want[string(p)+string(unhex(r.K))] = unhex(r.V)
+			} else {
+				delete(want, string(p)+string(unhex(r.K)))
 			}
 		}
 	case "rawput":
@@ -747,6 +832,69 @@ func genCase(r *vh.Rand, nops int) replay {
 	for len(rp.Ops) < nops {
 		rp.Ops = append(rp.Ops, genOp(r, prefixes, nk-r.Intn(4)))
 	}
+	// writers (BatchFunc): one or two per case; adds spread over the history, sometimes with a Close of the handle
+	// between the adds so that batches are renewed after the Close
+	nw := 0
+	if r.Chance(2, 3) {
+		nw = r.Range(1, 2)
+	}
+	for wi := 0; wi < nw; wi++ {
+		h := r.Intn(len(prefixes))
+		story := []op{{Kind: "wopen", H: h, N: r.Range(1, 3)}}
+		nadd := r.Range(2, 7)
+		closeAt := -1
+		if r.Chance(1, 2) {
+			closeAt = r.Range(0, nadd-1)
+		}
+		for i := 0; i < nadd; i++ {
+			if i == closeAt {
+				story = append(story, op{Kind: "close", H: h})
+			}
+			k := userKey(r)
+			if len(k) == 0 || r.Chance(1, 4) { // keys that are raw keys of other prefixes / of the raw seed
+				k = rawKey(r, prefixes)
+			}
+			rec := brec{K: hx(k)}
+			if r.Chance(4, 5) {
+				rec.Put, rec.V = true, hx(r.Bytes(r.Range(0, 2)))
+			}
+			story = append(story, op{Kind: "wadd", W: wi, B: []brec{rec}})
+		}
+		if r.Chance(4, 5) {
+			story = append(story, op{Kind: "wdone", W: wi})
+		}
+		if r.Chance(1, 4) {
+			story = append(story, op{Kind: "wadd", W: wi, B: []brec{{Put: true, K: hx(rbytes(r, 1, 2)), V: "77"}}})
+		}
+		// merge the story into the history keeping both orders (writer indices follow the order of the wopen ops)
+		pos := r.Range(6+len(prefixes), len(rp.Ops))
+		if wi > 0 {
+			for j, o := range rp.Ops {
+				if o.Kind == "wopen" && j >= pos {
+					pos = j + 1
+				}
+			}
+			// after the previous writer's wopen
+			for j, o := range rp.Ops {
+				if o.Kind == "wopen" && pos <= j {
+					pos = j + 1
+				}
+			}
+		}
+		var merged []op
+		merged = append(merged, rp.Ops[:pos]...)
+		rest := rp.Ops[pos:]
+		for len(story) > 0 || len(rest) > 0 {
+			if len(story) > 0 && (len(rest) == 0 || r.Chance(1, 2)) {
+				merged = append(merged, story[0])
+				story = story[1:]
+			} else {
+				merged = append(merged, rest[0])
+				rest = rest[1:]
+			}
+		}
+		rp.Ops = merged
+	}
 	rp.Ops = append(rp.Ops, op{Kind: "dump"})
 	return rp
 }
@@ -765,6 +913,19 @@ func corpus() []replay {
 				{Kind: "batch", H: 0, B: []brec{{Put: true, K: "7a7a", V: "09"}}},
 				{Kind: "get", H: 0, K: "63"}, {Kind: "put", H: 0, K: "63", V: "05"}, {Kind: "delete", H: 0, K: "63"},
 				{Kind: "iter", H: 0, HasR: true, Start: sp("63"), Asc: true}, {Kind: "dump"},
+			},
+		},
+		{ // a writer (BatchFunc, batch size 2) obtained BEFORE Close and used after it: roll-overs after the Close
+			Prefixes: []string{hx([]byte("ab")), hx([]byte("a")), "ffff"},
+			Ops: []op{
+				{Kind: "rawput", K: hx([]byte("zz")), V: "01"}, {Kind: "put", H: 1, K: "63", V: "03"},
+				{Kind: "wopen", H: 0, N: 2}, {Kind: "wadd", W: 0, B: []brec{{Put: true, K: "6b31", V: "11"}}},
+				{Kind: "close", H: 0},
+				{Kind: "wadd", W: 0, B: []brec{{Put: true, K: "6b32", V: "12"}}}, {Kind: "wadd", W: 0, B: []brec{{Put: true, K: "63", V: "13"}}},
+				{Kind: "wadd", W: 0, B: []brec{{Put: true, K: "7a7a", V: "14"}}}, {Kind: "wadd", W: 0, B: []brec{{K: "6b31"}}},
+				{Kind: "wadd", W: 0, B: []brec{{Put: true, K: "ffff", V: "15"}}}, {Kind: "wdone", W: 0}, {Kind: "dump"},
+				{Kind: "wadd", W: 0, B: []brec{{Put: true, K: "6b39", V: "19"}}}, {Kind: "wdone", W: 0},
+				{Kind: "wopen", H: 0, N: 1}, {Kind: "wadd", W: 1, B: []brec{{Put: true, K: "6b38", V: "18"}}}, {Kind: "wdone", W: 1}, {Kind: "dump"},
 			},
 		},
 		{ // all-0xff prefix and its neighbours
